@@ -132,16 +132,27 @@ class CodeData(DataclassHideDefault):
         Iterates through all the code data which are included,
         by processing the arguments recursively.
         """
+        # The same nested code can be loaded by several instructions, i.e. when a
+        # finally body is duplicated by the compiler, so only yield it once
+        seen: set[CodeData] = set()
         for block in self.blocks:
             for instruction in block:
                 arg = instruction.arg
-                if isinstance(arg, Constant) and isinstance(arg.constant, CodeData):
+                if (
+                    isinstance(arg, Constant)
+                    and isinstance(arg.constant, CodeData)
+                    and arg.constant not in seen
+                ):
+                    seen.add(arg.constant)
                     yield arg.constant
         # Nested code which no instruction references (dead code elimination)
         for additional_arg in self._additional_args:
-            if isinstance(additional_arg, Constant) and isinstance(
-                additional_arg.constant, CodeData
+            if (
+                isinstance(additional_arg, Constant)
+                and isinstance(additional_arg.constant, CodeData)
+                and additional_arg.constant not in seen
             ):
+                seen.add(additional_arg.constant)
                 yield additional_arg.constant
 
     def all_code_data(self) -> Iterator[CodeData]:
